@@ -577,8 +577,8 @@ Proof.
   { intros l. apply Forall2_map_same. apply Forall_forall. intros x _. apply IH. }
   assert (Hf : forall fs : list field,
              Forall2 (fun f f' : fshape => fst f = fst f' /\ refines (snd f) (snd f'))
-                     (map (fun f => (f_name f, is_boxed f, shape_reg r s n (f_ty f))) fs)
-                     (map (fun f => (f_name f, is_boxed f, shape_reg r s (n + k) (f_ty f))) fs)).
+                     (map (fun f => (f_name f, is_boxed_gen f, shape_reg r s n (f_ty f))) fs)
+                     (map (fun f => (f_name f, is_boxed_gen f, shape_reg r s (n + k) (f_ty f))) fs)).
   { intros fs. apply Forall2_map_same. apply Forall_forall. intros x _. cbn [fst snd].
     split; [reflexivity|apply IH]. }
   destruct (t_def t) as [fs|vs|e|len e|es|p|e|st or].
